@@ -402,6 +402,8 @@ def other_objects(pt):
         ('composition-dict', lambda: {'C': 12, 'H': 20.5, 'N': 3, 'O': 4, 'e': -1, 'S': 0},
          [('isotopic_distribution', lambda d: P.isotopic_distribution(d, 5, 0.0, 3)),
           ('chem_mass', lambda d: P.chem_mass(d)), ('write_chem_formula', lambda d: P.write_chem_formula(d, hill_order=True)),
+          ('write_chem_formula-precision', lambda d: P.write_chem_formula(d, precision=0)),
+          ('write_chem_formula-sep', lambda d: P.write_chem_formula(d, sep=' ', precision=1)),
           ('apply_isotope_mods', lambda d: P.apply_isotope_mods_to_composition(d, ['13C'])),
           ('isotopic_distribution-neutron', lambda d: P.isotopic_distribution(d, 4, 0.0, 2, True))]),
         ('glycan-dict', lambda: {'HexNAc': 2, 'Hex': 3},
